@@ -362,6 +362,9 @@ def binary_mutation(rng, seed):
     if fields:
         specific = ["o-cipher", "o-kdfname", "o-kdfopts", "o-rounds", "o-nkeys", "o-pubkey", "o-private-len",
                     "o-magic", "o-inner", "o-inner", "o-inner", "o-pad", "o-checkint", "o-salt"] * 2
+        s0, e0 = next((s, e) for nm, s, e in fields if nm == "cipher")
+        if seed.clsname == "RSAKey" and body[s0:e0] == b"none":
+            specific += ["o-rsa-small"] * 6
     k = rng.choice(generic + specific)
     b = bytearray(body)
     n = len(b)
@@ -439,6 +442,15 @@ def binary_mutation(rng, seed):
                                                   cur[:16], cur[:17]]))
         elif k == "o-magic":
             bb = rng.choice([b"openssh-key-v2\x00" + bb[15:], bb[:14] + bb[15:], b"\x00" + bb, bb[1:], bb[:15]])
+        elif k == "o-rsa-small":
+            # unencrypted RSA private section: keytype, n, e, d, iqmp, p, q, comment -> degenerate p / q / d / e
+            s, e = f["private"]
+            priv = bb[s:e]
+            flds, _ = inner_fields(priv)
+            if len(flds) >= 7:
+                fs, fe = flds[rng.choice([2, 3, 5, 5, 6, 6])]
+                priv = set_string(priv, fs, fe, rng.choice([b"\x01", b"\x01", b"", b"\x00", b"\x02", b"\x03"]))
+                bb = set_string(bb, s, e, priv)
         elif k in ("o-inner", "o-pad", "o-checkint"):
             s, e = f["private"]
             priv = bytearray(bb[s:e])
@@ -578,7 +590,7 @@ def run(ctx):
                     if r != "ok":
                         ctx.inconclusive("unmutated seed %s did not load (%s)" % (s.label, r))
         n_cases = ctx.pick(2000, 12000)
-        deadline = ctx.deadline(150, 1100)
+        deadline = ctx.deadline(150, 420)
         sampled = {}
         for i in range(n_cases):
             if time.time() > deadline:
